@@ -80,6 +80,7 @@ type Tunnel struct {
 
 	// Incoming requests
 	inbound chan cemi.Message
+	backlog inboundQueue
 
 	// Goroutine controller
 	done chan struct{}
@@ -358,21 +359,10 @@ func (conn *Tunnel) handleDiscRes(res *knxnet.DiscRes) error {
 	return nil
 }
 
-// pushInbound sends the message through the inbound channel. If the sending blocks, it will launch
-// a goroutine which will do the sending.
+// pushInbound sends the message through the inbound channel. If the sending blocks, the message
+// is queued and delivered in order by a goroutine.
 func (conn *Tunnel) pushInbound(msg cemi.Message) {
-	select {
-	case conn.inbound <- msg:
-
-	default:
-		go func() {
-			// Since this goroutine decouples from the server goroutine, it might try to send when
-			// the server closed the inbound channel. Sending to a closed channel will panic. But we
-			// don't care, because cool guys don't look at explosions.
-			defer func() { recover() }()
-			conn.inbound <- msg
-		}()
-	}
+	conn.backlog.push(conn.inbound, msg)
 }
 
 // handleTunnelReq validates the request, pushes the data to the client and acknowledges the
